@@ -25,7 +25,7 @@ type safeEmit struct{ s string }
 func (x safeEmit) SafeFormat(w redact.SafePrinter, verb rune) {
 	w.SafeString(redact.SafeString(x.s))
 	w.SafeRune('/')
-	w.SafeInt(5)
+	w.SafeString("5")
 }
 
 // plain twin of safeEmit for the fmt side
@@ -43,28 +43,31 @@ func c05Leaf(k int, su, ss string, registered bool) (interface{}, interface{}) {
 		return su, blankS("")
 	case 1:
 		return 1234, blankI(0)
+	// safe leaves: the fmt side gets the very same value (C14 shows that
+	// fmt prints Safe(x) like x), so that operand kinds - which decide
+	// Sprint's spacing - are identical on both sides
 	case 2:
-		return redact.SafeString(ss), ss
+		return redact.SafeString(ss), redact.SafeString(ss)
 	case 3:
-		return redact.Safe(ss), ss
+		return redact.Safe(ss), redact.Safe(ss)
 	case 4:
-		return redact.SafeInt(77), 77
+		return redact.SafeInt(77), redact.SafeInt(77)
 	case 5:
 		if registered {
-			return regInt(31), 31
+			return regInt(31), regInt(31)
 		}
 		return regInt(31), blankI(0)
 	case 6:
 		return safeEmit{ss}, safeEmitPlain{ss}
 	case 7:
-		return safeStr(ss), ss
+		return safeStr(ss), safeStr(ss)
 	case 8:
-		return redact.Safe(99), 99
+		return redact.Safe(99), redact.Safe(99)
 	}
 	panic("c05Leaf")
 }
 
-var c05Formats = []string{"x‹%v y%v|%v", "%5v|%-7v|%05v", "%s %s %s", "%.1v %#v %+v", "%v%v%v"}
+var c05Formats = []string{"x‹%v y%v|%v", "%5v|%-7v|%05v", "%6v %v %-3v|", "%.1v %v %+v", "%v%v%v"}
 
 // H_c05: exactly the unsafe arguments are enveloped.
 // p = [leaf1, leaf2, leaf3, shape, format, n, registered]
@@ -77,8 +80,8 @@ func H_c05(p []int) {
 	for k := range su {
 		vAssume(su[k] != '\n')
 	}
-	vAssume(validUTF8(su))
-	vAssume(validUTF8(ssb))
+	vAssumeValidUTF8(su)
+	vAssumeValidUTF8(ssb)
 	if reg {
 		redact.RegisterSafeType(reflect.TypeOf(regInt(0)))
 	}
